@@ -168,6 +168,28 @@ def run(prog, rep, tier):
                    'after the chunk data was read, %s on the inner reader fails with UnexpectedEof when fewer than %s bytes follow: the chunk already read is dropped, so data '
                    'flushed on a chunk boundary is not recovered' % (bad[0].term.cmethod, 'TAG_LENGTH'), lu.loc(bad[0].idx) if bad else lu.loc())
 
+    # ---------------- R14.6 "however little was appended": in the unauthenticated loader only a read of 0 bytes means the end of the stream -- any chunk data
+    # that was read (even fewer bytes than a tag: the tag of the current chunk is written lazily, after a flush the stream may end with a few data bytes) is
+    # decrypted and cached
+    if lu is not None and len(rte) == 1 and stores and rte[0].term.target is not None:
+        from .c13 import ok_payload_locals
+        r1 = rte[0]
+        pay = ok_payload_locals(lu, r1) | ({r1.term.dest[0]} if r1.term.dest else set())
+        zero_edges = []
+        for bl in lu.blocks:
+            si = switch_info(prog, lu, bl.idx)
+            if not si or si['kind'] != 'bool':
+                continue
+            e = expr_of(lu, si['cond'])
+            if e[0] == 'binop' and e[1] in ('Eq', 'Ne') and e[3][0] == 'const' and e[3][1] == 0 and e[2][0] == 'place' and \
+                    (e[2][1][0] in pay or must_derive(lu, e[2][1][0], lambda k_, ob_, bb_: k_ == 'call' and bb_ == r1.idx, extra_transparent=('branch',))):
+                zero_edges.append((bl.idx, si['true'] if e[1] == 'Eq' else si['false']))
+        r = reachable_vs(lu, r1.term.target, removed_blocks=stores, removed_edges=zero_edges, env0={r1.term.dest[0]: 'Ok'} if r1.term.dest and not r1.term.dest[1] else None)
+        early = [lu.loc(bl.idx) for bl in lu.blocks if bl.idx in r and not bl.cleanup for st in bl.stmts
+                 if st.kind == 'assign' and st.place == (0, ()) and st.rv.r == 'aggregate' and st.rv.j.get('variant') == 'Ok']
+        rep.ob('R14.6', not early, 'R14.6|%s|only-zero-bytes-ends-the-stream' % lu.nkey, 'after the chunk read, Ok is returned without caching only when 0 bytes were read' if not early else
+               'the unauthenticated loader reports the end of the stream (%s) although chunk data was read (count not 0): the last bytes pushed out by a flush are dropped' % ', '.join(early), lu.loc(r1.idx))
+
     # ---------------- R14.3 decoder drained before end of input is reported
     rd = one_body(prog, rep, 'R14.3', 'mla', adt='layers::compress::CompressionLayerFailSafeReader', name='read', trait='std::io::Read')
     if rd is not None:
